@@ -59,6 +59,7 @@ type Explorer struct {
 	SprintfMax          int
 	TickerTicks         int
 	SchedExplore        bool
+	YieldKinds          string
 	MaxSwitches         int
 	DeadlockIsViolation bool
 	PermuteIn           map[string]bool
